@@ -16,7 +16,7 @@ def run_fault_shard(exe, jobs_path, out_path, prog_path, njobs):
     while start < njobs:
         try:
             p = subprocess.run([exe, "fault", jobs_path, out_path, prog_path, str(start)], stdout=subprocess.PIPE,
-                               stderr=subprocess.PIPE, text=True, timeout=1200)
+                               stderr=subprocess.PIPE, text=True, timeout=1200, preexec_fn=limit_as)
             rc = p.returncode
             err = p.stderr[-400:]
         except subprocess.TimeoutExpired:
